@@ -58,10 +58,48 @@ pub fn run(opts: &Opts) -> Report {
         let mut msgs: Vec<Msg> = Vec::new();
         let mut ops_done: Vec<String> = Vec::new();
         let nops = rng.range(6, 30);
-        for _ in 0..nops {
+        // structured tail the random choice rarely produces: messages, a job left in flight by
+        // schedule(execute=false), then dry runs with the default (blocking) in-flight policy
+        let structured = rng.chance(1, 3);
+        let nops = if structured { nops + 4 } else { nops };
+        for op_no in 0..nops {
             let t = if rng.chance(1, 10) { "unknown-thread".to_string() } else { rng.pick(&threads).clone() };
             let stride = *rng.pick(&nums);
             let other = *rng.pick(&nums);
+            if structured && op_no + 4 >= nops {
+                let before = read();
+                let step = op_no + 4 - nops;
+                let (name, silent): (String, bool) = match step {
+                    0 => {
+                        for i in 0..5 {
+                            let _ = store.append_message(&t0, "u".into(), "cli".into(), format!("structured {i}"));
+                        }
+                        ("structured:messages".into(), false)
+                    }
+                    1 => {
+                        let _ = store.compaction_auto_schedule_v1(&t0, CompactionAutoScheduleV1Request { stride_messages: Some(2), max_new_checkpoints: Some(1), block_on_inflight: None, execute: Some(false), dry_run: Some(false), actor_id: "u".into(), origin: "cli".into() });
+                        ("structured:schedule(execute=false)".into(), false)
+                    }
+                    2 => {
+                        let _ = store.compaction_auto_schedule_v1(&t0, CompactionAutoScheduleV1Request { stride_messages: Some(2), max_new_checkpoints: Some(1), block_on_inflight: None, execute: Some(rng.chance(1, 2)), dry_run: Some(true), actor_id: "u".into(), origin: "cli".into() });
+                        ("structured:schedule(dry_run, job in flight)".into(), true)
+                    }
+                    _ => {
+                        let _ = store.compaction_auto_v1(&t0, CompactionAutoV1Request { stride_messages: Some(2), max_new_checkpoints: Some(1), dry_run: Some(true), actor_id: "u".into(), origin: "cli".into() });
+                        ("structured:auto(dry_run, job in flight)".into(), true)
+                    }
+                };
+                let after = read();
+                rep.count("structured_inflight_ops");
+                if !after.starts_with(&before) {
+                    rep.oracle_failure("C02|not-append-only", &format!("after {name} the previous log content is not a prefix"), json!({"op": name}));
+                }
+                if silent && after.len() != before.len() {
+                    rep.oracle_failure("C02|dry-run-wrote", &format!("{name} appended {} bytes to the truth log", after.len() - before.len()), json!({"op": name, "appended": String::from_utf8_lossy(&after[before.len()..]).chars().take(400).collect::<String>()}));
+                }
+                ops_done.push(name);
+                continue;
+            }
             let before = read();
             let pick = rng.below(26);
             let (name, read_only): (String, bool) = match pick {
@@ -102,7 +140,9 @@ pub fn run(opts: &Opts) -> Report {
                 8 => {
                     let dry = rng.chance(1, 2);
                     let r = store.compaction_auto_schedule_v1(&t, CompactionAutoScheduleV1Request { stride_messages: stride, max_new_checkpoints: other.map(|x| x as u32), block_on_inflight: Some(rng.chance(1, 2)), execute: Some(rng.chance(1, 2)), dry_run: Some(dry), actor_id: "u".into(), origin: "cli".into() });
-                    let silent = r.as_ref().map(|x| x.decision == "noop" || x.decision == "dry_run").unwrap_or(true);
+                    // a dry run must be silent whatever it reports (the expectation comes from the request,
+                    // not from the answer); otherwise silence is expected for the noop decision and for errors
+                    let silent = dry || r.as_ref().map(|x| x.decision == "noop" || x.decision == "dry_run").unwrap_or(true);
                     (format!("auto_schedule(dry={dry},silent={silent})"), silent)
                 }
                 9 => {
